@@ -77,6 +77,16 @@ var accelWideShapes = []struct {
 	{`\x{ffff}b`, []rune{'b', 'x', 0xffff, 0xfffe}},
 	{`b\x{ffff}`, []rune{'b', 'y', 0xffff, 0xfffe}},
 	{`a\x{ffff}\x{ffff}b`, []rune{'a', 'b', 0xffff}},
+	// two non-letters that differ only in bit 0x20 are NOT a case pair (an ordinal-ignore-case prefix may fold letters only)
+	{`[\[{]"\w+`, []rune{'[', '{', '"', 'k', ';'}},
+	{`[\]}],`, []rune{']', '}', ',', 'a'}},
+	{`(?:[\[{]1|[\]}]2)x`, []rune{'[', '{', ']', '}', '1', '2', 'x'}},
+	{`[@\x60]1\d`, []rune{'@', '`', '1', '2'}},
+	{`[\\|]-a`, []rune{'\\', '|', '-', 'a'}},
+	{`[\t)]2`, []rune{'\t', ')', '2', '('}},
+	{`(?i)(?:_id\d)+`, []rune{'_', '?', 'i', 'I', 'd', 'D', '1'}},
+	{`(?i)(?:@at)+x`, []rune{'@', '`', 'a', 'A', 't', 'T', 'x'}},
+	{`(?i)(?:\[k\])+`, []rune{'[', '{', ']', '}', 'k', 'K'}},
 	{`(?i)ǅa`, []rune{'a', 'A', 'ǅ', 'ǆ', 'Ǆ'}},
 	{`(?i)Ⅰb`, []rune{'b', 'B', 'Ⅰ', 'ⅰ'}},
 }
